@@ -207,6 +207,9 @@ func newRaceWorld(noRoot, api bool) (*raceWorld, error) {
 	ab.Config.Modules.BCryptCost = bcrypt.MinCost
 	ab.Config.Modules.MailNoGoroutine = false
 	ab.Config.Modules.LogoutMethod = "POST"
+	if api { // the default body reader cannot read a GET in JSON mode: mailed links are followed by a POST
+		ab.Config.Modules.MailRouteMethod = "POST"
+	}
 	ab.Config.Modules.ExpireAfter = time.Hour
 	ab.Config.Modules.RecoverLoginAfterRecovery = false
 	ab.Config.Paths.Mount = "/auth"
@@ -269,6 +272,13 @@ func newRaceWorld(noRoot, api bool) (*raceWorld, error) {
 		ab.LoadClientStateMiddleware(stack).ServeHTTP(rw, r)
 	})
 	return w, nil
+}
+
+func (w *raceWorld) mailMethod() string {
+	if w.api {
+		return "POST"
+	}
+	return "GET"
 }
 
 // viewLeak: the view data of a page rendered for browser b names only b
@@ -344,9 +354,16 @@ func (w *raceWorld) do(b, method, path string, form url.Values) (int, string, st
 	if w.api { // API mode: a redirect is a JSON document naming the location
 		var j struct {
 			Location string `json:"location"`
+			Data     struct {
+				Location string `json:"location"`
+			} `json:"data"`
 		}
-		if json.Unmarshal(rec.Body.Bytes(), &j) == nil && j.Location != "" {
-			loc = j.Location
+		if json.Unmarshal(rec.Body.Bytes(), &j) == nil {
+			if j.Location != "" {
+				loc = j.Location
+			} else if j.Data.Location != "" {
+				loc = j.Data.Location
+			}
 		}
 	}
 	return rec.Code, loc, page
@@ -400,7 +417,7 @@ func clientScript(w *raceWorld, i int, heavy bool) []string {
 	c, l, p = w.do(b, "POST", "/auth/login", url.Values{"email": {email}, "password": {pw}})
 	note("login-unconfirmed", c, l, p)
 	tok := w.waitToken(email, "confirm")
-	c, l, p = w.do(b, "GET", "/auth/confirm", url.Values{"cnf": {tok}})
+	c, l, p = w.do(b, w.mailMethod(), "/auth/confirm", url.Values{"cnf": {tok}})
 	note("confirm", c, l, p)
 	c, l, p = w.do(b, "POST", "/auth/login", url.Values{"email": {email}, "password": {"Wrong-pass1!"}})
 	note("login-wrong", c, l, p)
